@@ -195,8 +195,8 @@ def dstHooks (a : Attr) (notify : Bool) : List (Bool × Who × Bool) :=
   | .kids, false => [(false, .tl .list, true), (true, .tl .listItems, true)]
   | .group, true => [(false, .tl .error, true), (true, .tl .error, true)]
   | .group, false => [(false, .tl .list, true), (true, .tl .listItems, true)]
-  | .byname, true => [(false, .tl .error, false), (true, .tl .error, false)]
-  | .byname, false => [(false, .tl .dict, false), (true, .tl .dictItems, false)]
+  | .byname, true => [(false, .tl .error, true), (true, .tl .error, true)]
+  | .byname, false => [(false, .tl .dict, true), (true, .tl .dictItems, true)]
 
 theorem dst_hooks_table (l : Link) (remove : Bool) :
     (summary prog (dvtOf l.attr)
@@ -213,6 +213,17 @@ theorem anytrait_table (nn nt remove : Bool) (ty : Nat) :
      | none => { raised := true }) =
       { anyHooks := [Who.user], done := true } := by
   cases nn <;> cases nt <;> cases remove <;> rfl
+
+/-- The machinery's OWN handlers (handle_simple / handle_list(_items) / handle_dict(_items) / handle_dst /
+handle_error) are installed with `dispatch="extended"` (synchronously, whatever dispatch the user's
+handler asked for) for every link kind, connector, handler type (ANY / SRC / DST) and `remove`; the
+user's handler always with `self.dispatch`.  (Failed for Dict links before /repo 257ca45: F105.) -/
+theorem reregistration_sync_table (l : Link) (ty : Nat) (hty : ty = prog.anyListener ∨ ty = prog.srcListener ∨
+      ty = prog.dstListener) (remove : Bool) :
+    ∀ p ∈ (summary prog (dvtOf l.attr) { nextNone := false, notify := l.notify, type := ty, remove := remove }).hooks,
+      p.2.2 = (match p.2.1 with | .tl _ => true | .user => false) := by
+  rcases l with ⟨a, n⟩
+  rcases hty with rfl | rfl | rfl <;> cases a <;> cases n <;> cases remove <;> decide
 
 /-- The three listener types are distinct constants and `type_map` sends List / Dict / Set traits to
 `_register_list / _register_dict / _register_list` (alias) and everything else to `_register_simple`. -/
